@@ -778,24 +778,39 @@ func ruleMergeOrder(p *Prog, r *Report) {
 				}
 				ch := appendChain(st.Val)
 				accP := accumulatorKinds(cl, "field panos.panRule.Append == nil")
-				if len(ch) == 2 && strings.Contains(descValue(ch[1], 0), "panos.panVsys.Rules") {
-					k := ""
-					if kk, ok := accP[ch[0]]; ok {
-						k = kk
-					} else if ph, ok := ch[0].(*ssa.Phi); ok {
-						for _, e := range ph.Edges {
-							if kk, ok := accP[e]; ok {
-								k = kk
+				kindOfAcc := func(v ssa.Value) string {
+					// accumulators must be local to one invocation of the per-vsys closure:
+					// a captured variable keeps the rules of the previous vsys
+					for _, rt := range valueRoots(v) {
+						if u, ok := rt.(*ssa.UnOp); ok {
+							if _, isFV := u.X.(*ssa.FreeVar); isFV {
+								return "captured"
 							}
 						}
 					}
-					if k == "flag" { // collected under Append == nil
-						okTop = true
+					if kk, ok := accP[v]; ok {
+						return kk
 					}
+					if ph, ok := v.(*ssa.Phi); ok {
+						for _, e := range ph.Edges {
+							if kk, ok := accP[e]; ok {
+								return kk
+							}
+						}
+					}
+					return ""
+				}
+				isOld := func(v ssa.Value) bool { return strings.Contains(descValue(v, 0), "panos.panVsys.Rules") }
+				// top ++ v1.Rules (APPEND rules were appended to v1.Rules before), or top ++ v1.Rules ++ bottom
+				if len(ch) == 2 && isOld(ch[1]) && kindOfAcc(ch[0]) == "flag" {
+					okTop = true
+				}
+				if len(ch) == 3 && isOld(ch[1]) && kindOfAcc(ch[0]) == "flag" && kindOfAcc(ch[2]) == "not-flag" {
+					okTop = true
 				}
 			}
 		}
-		r.add("R18.6", "panos-prepend|(*panos.PanConfig).MergeSpoc", p.pos(fn.Pos()), "rules without APPEND are put in front: v1.Rules = top ++ v1.Rules", okTop, "raw rules no longer precede the Netspoc rules")
+		r.add("R18.6", "panos-prepend|(*panos.PanConfig).MergeSpoc", p.pos(fn.Pos()), "rules without APPEND are put in front: v1.Rules = top ++ v1.Rules [++ bottom], accumulators local to the per-vsys closure", okTop, "raw rules no longer precede the Netspoc rules")
 		r.add("R18.6", "panos-append-flag|(*panos.PanConfig).MergeSpoc", p.pos(fn.Pos()), "the APPEND attribute decides between prepend and append", okFlag, "")
 	} else {
 		r.fail("R18.6", "anchor|panos MergeSpoc", "", "not found", "")
